@@ -25,6 +25,8 @@ var registry = map[string]propDef{}
 
 func register(id, level string, fn checkFn) { registry[id] = propDef{level, fn} }
 
+var debugHooks []func(*Prog)
+
 func main() {
 	var (
 		prop   = flag.String("p", "", "property id (C01..C20)")
@@ -40,6 +42,17 @@ func main() {
 	)
 	events := flag.Bool("events", false, "debug: print event slots at every emit site")
 	flag.Parse()
+	if os.Getenv("AMDEBUG") != "" && len(debugHooks) > 0 && *events {
+		p, err := Load(LoadOpts{Repo: *repo, GOARCH: *goarch, Tags: *tags})
+		if err != nil {
+			fmt.Println(err)
+			os.Exit(2)
+		}
+		for _, h := range debugHooks {
+			h(p)
+		}
+		return
+	}
 	if *events {
 		p, err := Load(LoadOpts{Repo: *repo, GOARCH: *goarch, Tags: *tags})
 		if err != nil {
